@@ -88,7 +88,7 @@ func All() []*Timer { return timers }
 // IsArmed reports whether the timer is armed.
 func (t *Timer) IsArmed() bool { return t.armed }
 
-func Now() Time                  { return time.Now() }
-func Since(t Time) Duration      { return time.Since(t) }
-func Sleep(d Duration)           {}
-func Unix(s, n int64) Time       { return time.Unix(s, n) }
+func Now() Time             { return time.Now() }
+func Since(t Time) Duration { return time.Since(t) }
+func Sleep(d Duration)      {}
+func Unix(s, n int64) Time  { return time.Unix(s, n) }
